@@ -21,33 +21,34 @@ import (
 // ABCfg is the swarm configuration of one run (drawn from the seed, recorded
 // in the replay file).
 type ABCfg struct {
-	V6       bool    `json:"v6"`
-	SackA    bool    `json:"sack_a"`
-	SackB    bool    `json:"sack_b"`
-	CC       string  `json:"cc"`
-	MTU      int     `json:"mtu"`
-	SndBuf   int     `json:"sndbuf"`
-	RcvBufA  int     `json:"rcvbuf_a"`
-	RcvBufB  int     `json:"rcvbuf_b"`
-	NConn    int     `json:"nconn"`
-	Bytes    []int   `json:"bytes"`                   // per connection and direction: planned bytes [c*2+d]
-	ISSMode  int     `json:"iss_mode"`                // 0 random, 1 active just below 2^31, 2 active just below 2^32, 3/4 passive likewise
-	ISSBack  int     `json:"iss_back"`                // how far below the boundary
-	ISSMid   bool    `json:"iss_mid_space,omitempty"` // the neutral twin of a C14 run
-	KPassive uint32  `json:"k_passive"`               // measured cookie constant (passive ISS - active ISS), filled by the pre-pass
-	Drop     float64 `json:"drop"`
-	Dup      float64 `json:"dup"`
-	Reorder  float64 `json:"reorder"`
-	Stale    float64 `json:"stale"`
-	Delay    float64 `json:"delay"`
-	Budget   int     `json:"fault_budget"`
-	YieldP   float64 `json:"yield_p"`
-	MaxSteps int     `json:"max_steps"`
-	CloseMix int     `json:"close_mix"` // 0 shutdown-only, 1 also Close, 2 also abrupt close
-	Stalls   bool    `json:"reader_stalls"`
-	DropOnly bool    `json:"drop_only"`             // C02's fault model: drops of non-RST packets only, no network delay
-	DropIDs  []int   `json:"drop_frames,omitempty"` // fault positions chosen up front: the n-th emissions of the run are lost
-	MeasureK bool    `json:"-"`
+	V6          bool    `json:"v6"`
+	SackA       bool    `json:"sack_a"`
+	SackB       bool    `json:"sack_b"`
+	CC          string  `json:"cc"`
+	MTU         int     `json:"mtu"`
+	SndBuf      int     `json:"sndbuf"`
+	RcvBufA     int     `json:"rcvbuf_a"`
+	RcvBufB     int     `json:"rcvbuf_b"`
+	NConn       int     `json:"nconn"`
+	Bytes       []int   `json:"bytes"`                   // per connection and direction: planned bytes [c*2+d]
+	ISSMode     int     `json:"iss_mode"`                // 0 random, 1 active just below 2^31, 2 active just below 2^32, 3/4 passive likewise
+	ISSBack     int     `json:"iss_back"`                // how far below the boundary
+	ISSMid      bool    `json:"iss_mid_space,omitempty"` // the neutral twin of a C14 run
+	KPassive    uint32  `json:"k_passive"`               // measured cookie constant (passive ISS - active ISS), filled by the pre-pass
+	Drop        float64 `json:"drop"`
+	Dup         float64 `json:"dup"`
+	Reorder     float64 `json:"reorder"`
+	Stale       float64 `json:"stale"`
+	Delay       float64 `json:"delay"`
+	Budget      int     `json:"fault_budget"`
+	YieldP      float64 `json:"yield_p"`
+	MaxSteps    int     `json:"max_steps"`
+	CloseMix    int     `json:"close_mix"` // 0 shutdown-only, 1 also Close, 2 also abrupt close
+	Stalls      bool    `json:"reader_stalls"`
+	DropOnly    bool    `json:"drop_only"`                     // C02's fault model: drops of non-RST packets only, no network delay
+	ServerFirst bool    `json:"server_speaks_first,omitempty"` // the client writes nothing and does not shut down before it has read the server's end-of-stream
+	DropIDs     []int   `json:"drop_frames,omitempty"`         // fault positions chosen up front: the n-th emissions of the run are lost
+	MeasureK    bool    `json:"-"`
 }
 
 type abSide struct {
@@ -570,12 +571,15 @@ func (w *ABWorld) Next(step int) Step {
 			}
 			return Step{Op: "read", A: ci, B: si}
 		case 2:
+			if w.Cfg.ServerFirst && si == 0 && !s.eof {
+				return Step{Op: "read", A: ci, B: si}
+			}
 			if s.accepted >= s.target || r.Chance(0.1) {
 				return Step{Op: "shutw", A: ci, B: si}
 			}
 			return Step{Op: "write", A: ci, B: si, C: r.Range(1, 3000)}
 		default:
-			if w.Cfg.CloseMix >= 1 && s.accepted >= s.target && (s.eof || w.Cfg.CloseMix == 2) && r.Chance(0.5) {
+			if w.Cfg.CloseMix >= 1 && s.accepted >= s.target && (s.eof || w.Cfg.CloseMix == 2) && r.Chance(0.5) && !(w.Cfg.ServerFirst && si == 0 && !s.eof) {
 				return Step{Op: "close", A: ci, B: si}
 			}
 			if w.Cfg.Stalls && r.Chance(0.3) {
@@ -768,7 +772,7 @@ func (w *ABWorld) Drain(bound time.Duration) time.Duration {
 						progress = true
 					}
 				}
-				if !s.shutW && s.accepted >= s.target && (si == 1 || c.connected) {
+				if !s.shutW && s.accepted >= s.target && (si == 1 || c.connected) && !(w.Cfg.ServerFirst && si == 0 && !s.eof) {
 					w.shutw(c.id, si)
 					if s.shutW {
 						progress = true
@@ -848,6 +852,12 @@ func (w *ABWorld) Final(bound time.Duration) {
 			}
 			if done {
 				w.Probes["dir_"+how]++
+				continue
+			}
+			if w.Cfg.ServerFirst && wi == 0 && ws != nil && !ws.shutW && !ws.closed && ws.hardErr == nil {
+				// the client is waiting for the server's end-of-stream by design: the verdict
+				// on this connection is the one of the server-to-client direction
+				w.Probes["client_still_waiting_for_the_server"]++
 				continue
 			}
 			// not done within the bound: is it permanently quiet?
